@@ -207,6 +207,83 @@ fn opt_display_checks(o: &Obs, bits: u32) {
     let _ = &t;
 }
 
+/// The Borrow contract (what makes `HashMap<K, _>::get(&Q)` work): if a handle type implements `Borrow<[u8]>`
+/// or `Borrow<str>`, the handle and its borrowed form must agree on Hash, Eq and Ord. Arc<[u8]> / Arc<str> do
+/// today; an impl that appears on another handle kind (ThinArc, OffsetArc, ...) is checked through autoref.
+pub trait NoBorrowSlice {
+    fn opt_borrow_slice(&self) -> Option<(Vec<u8>, Vec<u8>, Vec<u8>)> {
+        None
+    }
+}
+impl<'a, T: ?Sized> NoBorrowSlice for &OptW<'a, T> {}
+impl<'a, T: ?Sized + std::borrow::Borrow<[u8]> + Hash> OptW<'a, T> {
+    /// (hash stream of the handle, hash stream of the borrowed form, the borrowed bytes)
+    pub fn opt_borrow_slice(&self) -> Option<(Vec<u8>, Vec<u8>, Vec<u8>)> {
+        let b: &[u8] = self.0.borrow();
+        Some((stream(self.0), stream(b), b.to_vec()))
+    }
+}
+pub trait NoBorrowStr {
+    fn opt_borrow_str(&self) -> Option<(Vec<u8>, Vec<u8>, String)> {
+        None
+    }
+}
+impl<'a, T: ?Sized> NoBorrowStr for &OptW<'a, T> {}
+impl<'a, T: ?Sized + std::borrow::Borrow<str> + Hash> OptW<'a, T> {
+    pub fn opt_borrow_str(&self) -> Option<(Vec<u8>, Vec<u8>, String)> {
+        let b: &str = self.0.borrow();
+        Some((stream(self.0), stream(b), b.to_string()))
+    }
+}
+
+fn opt_borrow_checks(o: &Obs, bytes: &[u8]) {
+    let text: String = bytes.iter().map(|b| char::from(b'a' + b % 26)).collect();
+    macro_rules! slice_kind {
+        ($h:expr, $n:expr) => {
+            if let Some((hk, hb, got)) = (&OptW(&$h)).opt_borrow_slice() {
+                if got != bytes || hk != hb {
+                    o.fail("Borrow-contract", format!("{} implements Borrow<[u8]>: borrowed bytes equal {}, hash streams equal {} (a map keyed by it cannot be queried by slice)", $n, got == bytes, hk == hb));
+                }
+            }
+        };
+    }
+    macro_rules! str_kind {
+        ($h:expr, $n:expr) => {
+            if let Some((hk, hb, got)) = (&OptW(&$h)).opt_borrow_str() {
+                if got != text || hk != hb {
+                    o.fail("Borrow-contract", format!("{} implements Borrow<str>: borrowed text equal {}, hash streams equal {}", $n, got == text, hk == hb));
+                }
+            }
+        };
+    }
+    let a: Arc<[u8]> = Arc::from(bytes.to_vec());
+    slice_kind!(a, "Arc<[u8]>");
+    let t0: ThinArc<(), u8> = ThinArc::from_header_and_slice((), bytes);
+    slice_kind!(t0, "ThinArc<(),u8>");
+    let t1: ThinArc<u8, u8> = ThinArc::from_header_and_slice(7, bytes);
+    slice_kind!(t1, "ThinArc<u8,u8>");
+    let hs = Arc::from_header_and_slice((), bytes);
+    slice_kind!(hs, "Arc<HeaderSlice<(),[u8]>>");
+    let av: Arc<Vec<u8>> = Arc::new(bytes.to_vec());
+    slice_kind!(av, "Arc<Vec<u8>>");
+    let s: Arc<str> = Arc::from(text.as_str());
+    str_kind!(s, "Arc<str>");
+    let ss: Arc<String> = Arc::new(text.clone());
+    str_kind!(ss, "Arc<String>");
+    let hstr = Arc::from_header_and_str((), &text);
+    str_kind!(hstr, "Arc<HeaderSlice<(),str>>");
+    // and the real thing: a map keyed by the handle, queried by the borrowed form
+    let mut m: std::collections::HashMap<Arc<[u8]>, u8> = std::collections::HashMap::new();
+    m.insert(a.clone(), 1);
+    let mut ms: std::collections::HashMap<Arc<str>, u8> = std::collections::HashMap::new();
+    ms.insert(s.clone(), 1);
+    let mut bt: std::collections::BTreeMap<Arc<str>, u8> = std::collections::BTreeMap::new();
+    bt.insert(s.clone(), 1);
+    if m.get(bytes) != Some(&1) || ms.get(text.as_str()) != Some(&1) || bt.get(text.as_str()) != Some(&1) {
+        o.fail("Borrow-contract", "HashMap<Arc<[u8]>,_> / HashMap<Arc<str>,_> / BTreeMap<Arc<str>,_> lookups by the borrowed form miss a present key".to_string());
+    }
+}
+
 macro_rules! opt_checks {
     ($o:expr, $a:expr, $b:expr, $eq:expr, $val_a:expr, $val_b:expr) => {{
         let (ha, hb) = ((&OptW(&$a)).opt_stream(), (&OptW(&$b)).opt_stream());
@@ -495,6 +572,7 @@ macro_rules! class_impl {
                         }
                         opt_checks!(o, a, b, eq5, tx, ty);
                         opt_display_checks(o, d.x.s.len() as u32 * 0x3f9e_3779 ^ 0x4020_0000);
+                        opt_borrow_checks(o, &d.x.s.iter().map(|e| e.to_bits_() as u8).collect::<Vec<u8>>());
                     }
                     6 => {
                         let aa = Arc::new(tx.clone());
